@@ -50,7 +50,7 @@ def check_grid_roundtrip(ctx, name, quick):
             ctx.case((name, tuple(dom.tolist()), ext, binary), sub="grid", sample=case if len(ctx.samples) < 2 and kind == "non-contiguous" else None)
             ctx.cover("domain_patterns", kind)
             exact_float = binary or ext == ".vtu"
-            vt = 0.0 if binary else 1e-15
+            vt = 0.0 if binary else (1e-15 if ext == ".msh" else 1e-10)  # ascii precision of .vtu/.ply is meshio's choice
             tri = raw.cells_dict.get("triangle")
             okv = np.max(np.abs(raw.points - v.T)) <= vt * np.max(np.abs(v)) if raw.points.shape == v.T.shape else False
             if ext == ".ply" and not binary:
@@ -172,7 +172,7 @@ def run(ctx):
         check_function_export(ctx, name, quick)
     ctx.require({"all-zero", "all-equal", "non-contiguous"} <= set(ctx.cov.get("domain_patterns", ())), "all-zero, all-equal and non-contiguous domain index vectors exported")
     ctx.assumptions += ["files are read back with bempp's import_grid AND independently with meshio.read",
-                        "binary output must round-trip float64 exactly; ascii .msh/.vtu to 1e-15, ascii .ply to 1e-6"]
+                        "binary output must round-trip float64 exactly; ascii .msh to 1e-15, ascii .vtu to 1e-10, ascii .ply to 1e-6 (digits written are meshio's choice)"]
     return ctx.finish(rule="grids x ALL maps elements -> {0,1,5,7,1000} for <=4 elements (structured patterns incl. > 2^16 on cube12) x {.msh,.vtu,.ply} x "
                       "binary/ascii; grid functions: 5 space kinds x real/complex unit and dense vectors x data_type {node, element, None} x 7 transformations "
                       "x binary/ascii; distinct = tuples")
